@@ -409,7 +409,8 @@ def rout_efficiency(D, transform=None):
         with np.errstate(divide='ignore'):
             e = 1 / e
         np.fill_diagonal(e, 0)
-        Eloc[u] = np.sum(e) / nGu
+        with np.errstate(divide='ignore', invalid='ignore'):
+            Eloc[u] = np.sum(e) / nGu  # nan for a node without neighbours
 
     return GErout, Erout, Eloc
 
